@@ -59,6 +59,9 @@ type Dec struct {
 	Op    int    `json:"op"`
 	Class string `json:"class"`
 	Fail  bool   `json:"fail,omitempty"`
+	// Kind of the injected failure: "" = 500 before any effect, "404" = 404 before any effect,
+	// "lost" = the request takes effect and the client gets 500
+	Kind string `json:"kind,omitempty"`
 }
 
 type E2ECase struct {
@@ -73,6 +76,10 @@ type E2ECase struct {
 	MaxFaults int     `json:"max_faults"`
 	Decisions []Dec   `json:"decisions,omitempty"`
 	DistinctPre bool  `json:"distinct_pre,omitempty"`
+	// FaultKinds: besides "500 before any effect" on the index exchanges also 404 on the index
+	// DELETE, a lost response of the index PUT (takes effect, answered 500) and failures of the
+	// operation's own manifest exchanges
+	FaultKinds bool `json:"fault_kinds,omitempty"`
 	// systematic exploration (replays use Decisions)
 	Explore   bool  `json:"-"`
 	Choices   []int `json:"-"`
@@ -90,6 +97,7 @@ type Event struct {
 	Cap     int32  `json:"cap"`
 	// Status the registry answered with; Fail = injected or (index DELETE) answered >= 400
 	Status int `json:"status,omitempty"`
+	Kind   string `json:"kind,omitempty"`
 	// Dropped: subjects whose referrers tag vanished with this exchange although it is not
 	// theirs (the deleted index manifest was shared: content-addressed)
 	Dropped []int `json:"dropped,omitempty"`
@@ -331,6 +339,7 @@ func genE2E(r *common.Rand, thorough bool) *E2ECase {
 	if r.Chance(1, 2) {
 		c.FaultPct = 10 + r.Intn(30)
 		c.MaxFaults = 1 + r.Intn(3)
+		c.FaultKinds = r.Chance(1, 2)
 	}
 	return c
 }
@@ -559,6 +568,7 @@ func runE2EInner(c *E2ECase, res *E2EResult) {
 			}
 			var pick *parked
 			var fail bool
+			fkind := ""
 			followed := false
 			if dpos < len(c.Decisions) {
 				d := c.Decisions[dpos]
@@ -566,6 +576,7 @@ func runE2EInner(c *E2ECase, res *E2EResult) {
 					cl, _ := classify(p.ex)
 					if p.ex.Op == fmt.Sprintf("%04d", d.Op) && cl == d.Class {
 						pick, fail, followed = p, d.Fail, true
+						fkind = d.Kind
 						break
 					}
 				}
@@ -599,6 +610,17 @@ func runE2EInner(c *E2ECase, res *E2EResult) {
 				pick = ps[sched.Intn(len(ps))]
 				cl, _ := classify(pick.ex)
 				if strings.HasPrefix(cl, "idx-") && faults < c.MaxFaults && sched.Intn(100) < c.FaultPct {
+					fail = true
+					if c.FaultKinds {
+						switch {
+						case cl == "idx-put" && sched.Chance(1, 3):
+							fkind = "lost"
+						case cl == "idx-del" && sched.Chance(1, 3):
+							fkind = "404"
+						}
+					}
+				} else if c.FaultKinds && strings.HasPrefix(cl, "man-") && faults < c.MaxFaults && sched.Intn(100) < c.FaultPct/2 {
+					// the operation's own manifest exchange fails (fetch / PUT / final DELETE)
 					fail = true
 				}
 			}
@@ -635,7 +657,15 @@ func runE2EInner(c *E2ECase, res *E2EResult) {
 			}
 			tagsBefore := reg.Tags(repoName)
 			g.remove(pick)
-			pick.release <- fakereg14.Decision{Fail: fail, Status: 500}
+			dec := fakereg14.Decision{Fail: fail, Status: 500}
+			switch fkind {
+			case "404":
+				dec.Status = 404
+			case "lost":
+				dec.AfterEffect = true
+			}
+			ev.Kind = fkind
+			pick.release <- dec
 			synctest.Wait()
 			statusMu.Lock()
 			ev.Status = statusOf[pick.ex.Seq]
@@ -655,7 +685,7 @@ func runE2EInner(c *E2ECase, res *E2EResult) {
 			ev.Cap = remote.VerifReferrersStateC14(repo)
 			res.Caps = append(res.Caps, ev.Cap)
 			res.Events = append(res.Events, ev)
-			res.Decisions = append(res.Decisions, Dec{Op: ev.Op, Class: cl, Fail: fail})
+			res.Decisions = append(res.Decisions, Dec{Op: ev.Op, Class: cl, Fail: fail, Kind: fkind})
 		}
 	}
 	wg.Wait()
@@ -925,6 +955,9 @@ func checkE2E(c *E2ECase, res *E2EResult) []failure {
 	for _, e := range res.Events {
 		if e.Fail {
 			failedAny[e.Round]++
+			if e.Kind == "lost" {
+				nFailedDel++ // the PUT took effect, the update stopped before deleting the old index
+			}
 			if e.Class == "idx-del" {
 				nFailedDel++
 				if failedDel[e.Round] == nil {
@@ -1081,7 +1114,16 @@ func checkE2E(c *E2ECase, res *E2EResult) []failure {
 		for _, o := range ops {
 			r := res.Ops[o.ID]
 			s := c.Mans[o.Man].Subject
-			if r.Outcome != "ok" && failedAny[rd] == 0 && !overlap[o.Man] {
+			// an earlier operation on this manifest failed: what a later one finds is not determined
+			tainted := false
+			for rd0 := 0; rd0 < rd; rd0++ {
+				for _, o0 := range c.Rounds[rd0] {
+					if o0.Man == o.Man && res.Ops[o0.ID].Outcome == "err" {
+						tainted = true
+					}
+				}
+			}
+			if r.Outcome != "ok" && failedAny[rd] == 0 && !overlap[o.Man] && !tainted {
 				add("unexpected-error", "op %d (%s manifest %d) returned %s without any injected failure: %s", o.ID, o.Kind, o.Man, r.Outcome, r.Err)
 			}
 			if r.Outcome == "idxdel" {
@@ -1102,6 +1144,13 @@ func checkE2E(c *E2ECase, res *E2EResult) []failure {
 						add("idxdel-no-effect", "delete op %d returned a referrers-index-delete error but manifest %d is still in the index %v of subject %d", o.ID, o.Man, res.IndexTagged[s], s)
 					}
 				}
+			}
+		}
+	}
+	for _, e := range res.Events {
+		if e.Fail && strings.HasPrefix(e.Class, "man-") && e.Kind != "lost" {
+			if r, ok := res.Ops[e.Op]; ok && r.Outcome != "err" {
+				add("swallowed-error", "op %d returned %q although its %s exchange was answered %d", e.Op, r.Outcome, e.Class, e.Status)
 			}
 		}
 	}
